@@ -4,6 +4,9 @@ import json,subprocess
 ALL=[f"C{i:02d}" for i in range(1,21)]
 # id -> (technique, level text, level note, design ref)
 CLAIMED={
+ "C01":("runtime invariant monitor over the id algebra and its geometry: exhaustive enumeration of all ids of levels 0..6 (thorough 0..9) plus boundary-targeted ids at every level, each checked against the documented bit layout (level/face/range/parent/children partition/token/string round trips), curve arithmetic (AdvanceWrap/Advance vs integer model), and geometric oracles (two cells of one level share an edge iff they share two vertices; neighbours touch; expected neighbour counts incl. cube corners); hostile points on/within 0-3 ulps of cell, face and cube-corner boundaries must be contained by their leaf and all 31 ancestors (library test + independent exact-orientation quadrilateral test)",
+         "Exhaustive for ids of levels 0..6 (quick) / 0..9 (thorough); sampled (boundary-targeted) above; 6*10^5 / 2*10^7 hostile points. Held on what was observed.",
+         "Trusted: the documented id bit layout, Cell.Vertex geometry (monitored by C12), internal/ref orientation.","DESIGN.md section 5 C01"),
  "C02":("runtime reference-model monitor: every RobustSign/Sign/OrderedCCW/CompareDistance(s)/SignDotProd call and every internal stage (hooked) is compared with exact big.Int arithmetic and a derived symbolic perturbation; Grassmann-Pluecker chirotope monitor on 5-tuples; rounding-error search against the code's own constants",
          "Held on every execution observed: ~2.7M (quick) / ~10^8 (thorough) hostile triples, 5-tuples and distance triples concentrated on exact and near degeneracies (separations 1e-300..pi); not a proof - a constant that is too small by less than the rounding error the search reaches is not detected; the evidence reports the closest approach to each bound.",
          "Trusted: internal/ref exact integer arithmetic + Leibniz-expansion SoS (self-checked each run by GP relations/antisymmetry), math/big, build tag verif exporting the stages unchanged.","DESIGN.md section 5 C02"),
